@@ -148,6 +148,13 @@ theorem hit_mono (V : Variant) (s s' : State) (e : Ev) (hs : step V s e = some s
     split at hs
     · simp at hs
     · simp only [Option.some.injEq] at hs; subst hs; exact hh
+  | L j =>
+    simp only [step] at hs
+    split at hs
+    · simp only [Option.some.injEq] at hs; subst hs; exact hh
+    · simp at hs
+  | O j g =>
+    simp only [step, Option.some.injEq] at hs; subst hs; exact hh
 
 /-- a state without injected fault has no armed fault and comes from such a state -/
 theorem faulted_mono (V : Variant) (s s' : State) (e : Ev) (hs : step V s e = some s') (hf : s'.faulted = false) :
@@ -215,6 +222,15 @@ theorem faulted_mono (V : Variant) (s s' : State) (e : Ev) (hs : step V s e = so
     split at hs
     · simp at hs; subst hs; exact hf
     · simp at hs
+  | L j =>
+    refine ⟨?_, by simp⟩
+    simp only [step] at hs
+    split at hs
+    · simp only [Option.some.injEq] at hs; subst hs; exact hf
+    · simp at hs
+  | O j g =>
+    refine ⟨?_, by simp⟩
+    simp only [step, Option.some.injEq] at hs; subst hs; exact hf
 
 theorem hit_of_reachable_step (V : Variant) (s s' : State) (e : Ev) (hs : step V s e = some s') (hh : s'.hit = false) :
     s.hit = false := hit_mono V s s' e hs hh
@@ -244,4 +260,15 @@ theorem reachable_invP {V : Variant} (hW : WF V) {jobs : List Job} (hd : jobs.No
     | U k => exact (invP_stepU V s0 s1 k h0 hs).elim
     | A => exact invP_stepA V s0 s1 h0 hs
     | F => exact absurd rfl hne
+    | L j =>
+      simp only [step] at hs
+      split at hs
+      · simp only [Option.some.injEq] at hs; subst hs
+        obtain ⟨a, b, c, d, e, f, g, i, j', k, l, m, n, o, na⟩ := h0
+        exact ⟨a, b, c, d, e, f, g, i, j', k, l, m, n, o, na⟩
+      · simp at hs
+    | O j g =>
+      simp only [step, Option.some.injEq] at hs; subst hs
+      obtain ⟨a, b, c, d, e, f, g', i, j', k, l, m, n, o, na⟩ := h0
+      exact ⟨a, b, c, d, e, f, g', i, j', k, l, m, n, o, na⟩
 end RedunModel.Monitor
